@@ -297,7 +297,7 @@ let oracle touch cap has_enf (prefix : symop list) (ops : symop array) (outs : s
       else if List.mem "err" rs then "fail:operation-failed"
       else if List.exists (fun r -> String.length r > 3 && String.sub r 0 3 = "err") rs then "fail:operation-failed"
       else if ids <> "ids=ok" then "fail:duplicate-id"
-      else if status <> "fin" then "ok"
+      else if status <> "fin" && status <> "bypassed" then "ok"
       else if List.exists2 (fun o r -> match o with SAdd _ -> r <> "id" | _ -> false) (Array.to_list ops) rs then "fail:delivery-without-id"
       else if has_enf then "ok"
       else begin
